@@ -522,13 +522,16 @@ func getNextPos(slice1, slice2 []uint64, slice1Idx, slice2Idx int) (uint64, int,
 	}
 
 	// Attempt to grab the sibling of the current position to process.
+	//
+	// NOTE: a position is never its own sibling. A duplicate of a right sibling
+	// satisfies rightSib(pos) == next as well so explicitly check for it.
 	sibIdx := nextLeastSlice(slice1, slice2, slice1Idx, slice2Idx)
 	if sibIdx == 0 {
-		if rightSib(pos) != slice1[slice1Idx] {
+		if pos == slice1[slice1Idx] || rightSib(pos) != slice1[slice1Idx] {
 			sibIdx = -1
 		}
 	} else if sibIdx == 1 {
-		if rightSib(pos) != slice2[slice2Idx] {
+		if pos == slice2[slice2Idx] || rightSib(pos) != slice2[slice2Idx] {
 			sibIdx = -1
 		}
 	}
